@@ -138,6 +138,8 @@ func errKind(err error) string {
 		return "magic"
 	case errors.Is(err, recordio.HeaderChecksumMismatchErr):
 		return "hdrcrc"
+	case strings.Contains(msg, "non-canonical varint"):
+		return "noncanon"
 	case strings.Contains(msg, "overflows a 64-bit integer"):
 		return "overflow"
 	case strings.Contains(msg, "checksum byte reader out of range"):
